@@ -96,7 +96,17 @@ static std::string run(const hx::Sexp &e)
     if (kind == "reset") {
         auto a = hxe::buildReset(e[2]); auto b = a->clone();
         reachReset(a, oa); reachReset(b, ob);
-        return "(r " + hxe::dumpReset(b, nullptr) + ") (orig " + hxe::dumpReset(a, nullptr) + ") " + info(a, b, oa, ob, b->parent() == nullptr, "ok");
+        std::string first = "(r " + hxe::dumpReset(b, nullptr) + ") (orig " + hxe::dumpReset(a, nullptr) + ") ";
+        // the same reset once its variables are owned by a component (a reset that lives in a model): the clone must not
+        // reach the component's variables either; whatever it shares is added to the first clone's report
+        auto owner = Component::create("owner");
+        if (a->variable() != nullptr) owner->addVariable(a->variable());
+        if (a->testVariable() != nullptr && a->testVariable() != a->variable()) owner->addVariable(a->testVariable());
+        auto b2 = a->clone();
+        Objs ob2;
+        reachReset(b2, ob2);
+        for (auto &x : ob2) if (oa.count(x.first) != 0) ob[x.first] = x.second;
+        return first + info(a, b, oa, ob, b->parent() == nullptr && b2->parent() == nullptr, "ok");
     }
     if (kind == "comp") {
         // the component sits inside a parent so that "the clone has no parent" is not vacuous
